@@ -169,6 +169,10 @@ class FakeSelector:
         self.closed = True
 
 
+def ref_eof():
+    return b''
+
+
 def accept_for(key):
     return base64.b64encode(hashlib.sha1(key + constants.WS_KEY).digest())
 
